@@ -2,5 +2,11 @@
 #![allow(unused_imports, dead_code)]
 use super::*;
 
+/// A reader over an in-memory WAL image whose methods are stubbed by the harness that uses it
+/// (bitbox::verif_kani::recover_*): only `sync_seqn` is read from the value itself.
+pub(crate) fn kani_reader(sync_seqn: u32) -> WalBlobReader {
+    WalBlobReader { wal: Vec::new(), offset: 0, sync_seqn }
+}
+
 #[cfg(test)]
 include!("/verif/.build/playback/bitbox_wal_read.inc");
